@@ -223,6 +223,29 @@ def rules(ck, P):
                 ck.check(not shared, "P2", "%s|callback#%d" % (b["q"], n_cb), "callback passed to %s captures no shared mutable state (%s)" % ((n.get("rvq") or n.get("q")).rsplit("::", 1)[-1], [c["var"] for c in a.get("caps", [])]),
                          "the callback passed to the parallel operator %s captures shared mutable state %s: concurrent items can read each other's results" % ((n.get("rvq") or n.get("q")).rsplit("::", 1)[-1], shared), ir.loc(a))
     ck.anchor("P2", "workspace callbacks passed to parallel operators", list(range(n_cb)), 2)
+    # ---- P6: the non-parallel constructors / combinators conserve items: the set of stream adaptors each of them uses is the reviewed one
+    # (1:1 adaptors only; `flatten` over `then(await .stream)` for from_stream_iter); a filtering adaptor in one of them drops tiles
+    EXPECT = {"new_empty": {"boxed"}, "from_stream": set(), "from_vec": {"boxed"}, "from_stream_iter": {"then", "flatten"}, "map_coord": {"map", "boxed"},
+              "collect": {"collect"}, "next": {"next"}}
+    for nm, want in EXPECT.items():
+        fb = [b for b in ts if b["q"].endswith("::" + nm)]
+        if not fb:
+            continue
+        got = {y["name"] for y in ir.walk_nodes(fb[0]["body"]) if y.get("k") == "mcall" and any(t in (y.get("q") or "") for t in ("StreamExt", "stream::", "Iterator", "TryStreamExt"))}
+        extra = got - want - {"boxed", "iter", "into_iter"}
+        ck.check(not extra and (want - {"boxed"}) <= got | {"boxed"}, "P6", fb[0]["q"], "%s uses only item-preserving adaptors %s" % (nm, sorted(got)),
+                 "%s uses the adaptor(s) %s: items (or whole sub-streams) can be dropped, reordered or duplicated" % (nm, sorted(extra) or sorted(want - got)), ir.loc(fb[0]))
+    fsi = [b for b in ts if b["q"].endswith("::from_stream_iter")]
+    if fsi:
+        th_ = [y for y in ir.walk_nodes(fsi[0]["body"]) if y.get("k") == "mcall" and y.get("name") == "then" and y.get("a") and y["a"][0].get("k") == "closure"]
+        okf = False
+        if len(th_) == 1:
+            clo = th_[0]["a"][0]
+            ps = [x["hid"] for p_ in clo["params"] for x in ir.pat_binds(p_)]
+            conds = [y["k"] for y in ir.walk_nodes(clo["body"]) if y.get("k") in ("if", "match") and "desugar" not in (y.get("m") or "") and y.get("msrc", "Normal") == "Normal"]
+            flds = [y for y in ir.walk_nodes(clo["body"]) if y.get("k") == "field" and y.get("name") == "stream" and ir.contains(y["e"], lambda z: z.get("k") == "await" and ir.local_hid(z["e"]) in ps)]
+            okf = bool(flds) and not conds
+        ck.check(okf, "P6", fsi[0]["q"] + "|then", "every awaited sub-stream's `.stream` is handed to flatten unconditionally", "from_stream_iter does not pass every sub-stream on", ir.loc(fsi[0]))
     # ---- P5: the plain consumers hand every item to the callback exactly once: `self.stream.for_each(F)` on the whole stream (no adaptor),
     # where F is the callback itself or a closure that calls it once with its own item on every path
     from . import mvt as _mvt
